@@ -1,6 +1,7 @@
 //! `vh-crypto` — decision tables of the crypto layer (DESIGN §3.6, §5 "Crypto"):
 //! `AfcMessage.tla` cells into `aranya_fast_channels::Client` (C39), `CryptoBinding.tla` cells
 //! into real `DefaultEngine` objects (C34, C36, C37, C38).
+mod afckeys;
 mod afcmsg;
 mod enc;
 mod ops;
@@ -15,6 +16,7 @@ fn main() {
         "cmdsig" => sign::run(&args),
         "wrap" => wrap::run(&args),
         "enc" => enc::run(&args),
+        "afckeys" => afckeys::run(&args),
         s => vrt::die(&format!("unknown subcommand {s}")),
     }
 }
